@@ -28,6 +28,8 @@ func propC15(c *Ctx) propInfo {
 }
 
 var excC15E2 = map[string]string{
+	"(*wallet.PayloadV1toV4).UnmarshalTLB R-ignored boc.Cell.NextRef":                             "loop-termination idiom: NextRef fails only with ErrNotEnoughRefs, which marks the end of the message list",
+	"(*wallet.Wallet).RawSendV2 R-ignored wallet.blockchain.GetSeqno":                             "polling loop: a failed seqno query is retried at the next tick; the loop ends with a timeout error when no query ever shows the seqno advanced",
 	"(*wallet.PayloadV1toV4).UnmarshalTLB R-swallow return nil under boc.Cell.NextRef()#1 != nil": "loop-termination idiom: NextRef fails only with ErrNotEnoughRefs, which marks the end of the message list",
 }
 
